@@ -151,6 +151,15 @@ func c08Trigger(c c08CloseCase) (pre []byte, trigger []byte, script harness.Scri
 		pre = []byte(g + "MAIL FROM:<s@x>\r\nRCPT TO:<r@x>\r\n")
 		script.Data = []harness.DataPlan{{Read: harness.ReadPlan{Limit: -1}, PanicAfter: true}}
 		trigger = []byte("BDAT 5 LAST\r\nhello")
+	case "panic-bdat-early":
+		// the delivery panics before it reads: the chunk copy itself fails
+		pre = []byte(g + "MAIL FROM:<s@x>\r\nRCPT TO:<r@x>\r\nRCPT TO:<r2@x>\r\n")
+		script.Data = []harness.DataPlan{{Read: harness.ReadPlan{Limit: -1}, PanicBefore: true}}
+		trigger = []byte("BDAT 5 LAST\r\nhello")
+	case "panic-bdat-midway":
+		pre = []byte(g + "MAIL FROM:<s@x>\r\nRCPT TO:<r@x>\r\nBDAT 3\r\nabc")
+		script.Data = []harness.DataPlan{{Read: harness.ReadPlan{Limit: 3}, PanicAfter: true}}
+		trigger = []byte("BDAT 5 LAST\r\nhello")
 	}
 	return
 }
@@ -321,7 +330,7 @@ var c08SuffixLines = []string{
 
 func c08GenClose(t *rapid.T) c08CloseCase {
 	c := c08CloseCase{Mode: rapid.IntRange(0, 2).Draw(t, "mode")}
-	c.Reason = rapid.SampledFrom([]string{"quit", "quit", "errors", "errors", "longline", "timeout", "panic-newsession", "panic-mail", "panic-rcpt", "panic-data", "panic-bdat"}).Draw(t, "reason")
+	c.Reason = rapid.SampledFrom([]string{"quit", "quit", "errors", "errors", "longline", "timeout", "panic-newsession", "panic-mail", "panic-rcpt", "panic-data", "panic-bdat", "panic-bdat-early", "panic-bdat-midway"}).Draw(t, "reason")
 	g := greetWord(c.Mode != 0) + " cli"
 	switch rapid.IntRange(0, 4).Draw(t, "prefix") {
 	case 0:
